@@ -792,6 +792,23 @@ def explore(tier, seed, args, sw):
                                    payload)
         new_paths.append(("unreduced", path, payload["detail"]))
 
+    # ---- regression replays: minimised violations found earlier (by the
+    # thorough tier) and repaired since; each must stay repaired
+    import glob
+    reg_files = sorted(glob.glob(os.path.join(report.VERIF, "regressions",
+                                              PROP, "*.json")))
+    reg_checked = 0
+    for rf in reg_files:
+        with open(rf) as f:
+            rp = json.load(f)
+        kinds = differs(rp["op"], (rp["a"]["cfg"], rp["a"]["history"]),
+                        (rp["b"]["cfg"], rp["b"]["history"]))
+        reg_checked += 1
+        if kinds:
+            new_paths.append((rp.get("key", "regression"), rf,
+                              f"regression replay differs again in {kinds}: "
+                              + rp.get("detail", "")))
+
     for fid in sorted(known_seen):
         print(f"KNOWN-FINDING: property={PROP} {fid}: "
               f"{known.get(fid, {}).get('what', '')}")
@@ -825,6 +842,7 @@ def explore(tier, seed, args, sw):
         "mismatching_executions": len(all_mm),
         "mismatches_explained_by_known_findings": explained,
         "mismatches_unexplained": len(residual),
+        "regression_replays_checked": reg_checked,
         "seeds": {"VERIF_SEED": seed, "batches": [0, nb - 1]},
         "faults_fired": {
             "hash_seed_changed": sum(
